@@ -63,6 +63,8 @@ theorem InstrOK_of_b (i : Instr) (h : instrOKb i = true) : InstrOK i := by
 theorem ProgOK_of_allb (im : IMem) (h : im.prog.all instrOKb = true) : ProgOK im :=
   ProgOK_of_all im (fun i hi => InstrOK_of_b i (List.all_eq_true.1 h i hi))
 
+instance (n : Nat) (p : PSt) : Decidable (runOK n p) := by unfold runOK; infer_instance
+
 /-- `abs` of a freshly initialised pipeline is the architectural state. -/
 theorem abs_init (st : St) (hz : Bool) : abs (PSt.init st hz) = st :=
   abs_of_empty _ rfl rfl rfl rfl rfl
